@@ -67,6 +67,23 @@ def predict_case(case):
         model.set_params(**keep)
     where = dict(estimator=name, spec=str(SPECS[name][si]))
     v, n_eval = [], 0
+    # the fitted estimator after a pickle / deep-copy / cloudpickle round trip is the same model: same labels, same probabilities on new points;
+    # the subset / permutation checks below then run on a copy for half of the cases
+    from mc import transport
+    ref_l, ref_p = model.predict(Xnew), (model.predict_proba(Xnew) if hasattr(model, "predict_proba") else None)
+    for kind_, cp_ in transport.copies(model):
+        if isinstance(cp_, Exception):
+            v.append(violation("transported_copy_answers_differently", {"transport": kind_, "error": repr(cp_)[:200]}, transport=kind_, **where))
+            continue
+        try:
+            same = np.array_equal(cp_.predict(Xnew), ref_l) and (ref_p is None or np.array_equal(cp_.predict_proba(Xnew), ref_p)) \
+                and np.array_equal(cp_.predict(Xtr), model.labels_)
+        except Exception as e:  # noqa
+            same = False
+        if not same:
+            v.append(violation("transported_copy_answers_differently", {"transport": kind_}, transport=kind_, **where))
+        elif (si + seed) % 2 == 0 and kind_ == transport.pick((name, si)):
+            model = cp_
     has_proba = hasattr(model, "predict_proba")
     pred_tr = model.predict(Xtr)
     if not np.array_equal(pred_tr, model.labels_):
